@@ -67,9 +67,47 @@ class Failure:
 # ---------------------------------------------------------------------------------------------
 # step 1: translator
 
-def regenerate():
+def gen_deps(targets):
+    """the generated files (Gen/X.v) in the transitive dependency closure of the given .vo targets, from the
+    dependency file coq_makefile maintains; None if it cannot be determined (then every generated file counts)"""
+    dep = os.path.join(COQ, '.Makefile.d')
+    graph = {}
+    try:
+        with open(dep) as fh:
+            for line in fh:
+                if ':' not in line:
+                    continue
+                lhs, rhs = line.split(':', 1)
+                ds = [d for d in rhs.split() if d.endswith('.vo')]
+                for t in lhs.split():
+                    if t.endswith('.vo'):
+                        graph[t] = ds
+    except OSError:
+        return None
+    seen, todo = set(), [t for t in targets if t != 'Extract.vo']
+    while todo:
+        t = todo.pop()
+        if t in seen:
+            continue
+        seen.add(t)
+        if t not in graph and not t.startswith('Gen/'):
+            return None
+        todo.extend(graph.get(t, []))
+    return set(os.path.basename(t)[:-1] for t in seen if t.startswith('Gen/'))
+
+
+def regenerate(targets=None):
+    """run the translator.  A generated file that cannot be regenerated (exit code 3) keeps its last good content; that
+    is a failure of the property at hand only if its theorems depend on that file"""
     rc, out = sh("python3 %s --repo %s --out %s" % (os.path.join(VERIF, 'tools', 'rs2v.py'), REPO,
                                                     os.path.join(COQ, 'Gen')), timeout=120)
+    if rc == 3 and targets is not None:
+        failed = re.findall(r"TRANSLATION FAILED (\w+\.v):", out)
+        needed = gen_deps(targets)
+        hit = [f for f in failed if needed is None or f in needed]
+        if failed and not hit:
+            return None
+        return Failure('translator', 'tools/rs2v.py could not regenerate %s' % ", ".join(hit or failed), out)
     if rc != 0:
         return Failure('translator', 'tools/rs2v.py', out)
     return None
